@@ -160,7 +160,7 @@ def hermitian_h0(rng, cx):
     return Q, d
 
 
-def direct_calls(rng, p, nonherm, conj_pair=False):
+def direct_calls(rng, p, nonherm, conj_pair=False, interleaved=False):
     """conj_pair: a REAL, non-symmetric h_0 with a complex-conjugate pair of explicit levels alpha +- i
     (complex biorthogonal eigenvectors (1, -+i), (1, -+i)/2 of a rotation-like 2x2 part)."""
     from pymablock.block_diagonalization import solve_sylvester_direct
@@ -188,7 +188,9 @@ def direct_calls(rng, p, nonherm, conj_pair=False):
         alpha = rng.choice([-1, 0, 1])
         pool = [alpha + dl for dl in (-3, -2, -1, 1, 2, 3)]
     rng.shuffle(pool)
-    nb = rng.choice([1, 2]) if nexp > 1 else 1
+    if interleaved:
+        nexp = 3
+    nb = rng.choice([1, 2]) if nexp > 1 and not interleaved else 1
     cut = sorted(rng.sample(range(1, nexp), nb - 1)) if nb > 1 else []
     blocks = [list(range(a, b)) for a, b in zip([0, *cut], [*cut, nexp])]
     lam = np.zeros(d, dtype=complex if (cx and nonherm) else float)
@@ -198,6 +200,13 @@ def direct_calls(rng, p, nonherm, conj_pair=False):
         used += 2
         for s in blk:
             lam[s] = rng.choice(lev)
+    if interleaved:
+        # stratum: ONE explicit block whose levels are listed as (hi, lo, hi): not in ascending order and a
+        # degenerate level interleaved with another one (the per-state Green's functions must follow the
+        # states' own indices, whatever order the grouping of close energies returns)
+        lo_, hi_ = sorted(pool[:2])
+        lam[0], lam[1], lam[2] = hi_, lo_, hi_
+        used = 2
     rest = pool[used:]
     for s in range(nexp, d):
         lam[s] = rng.choice(rest)
@@ -467,6 +476,7 @@ GENERATORS = {
     "direct_herm": lambda rng, p: direct_calls(rng, p, False),
     "direct_nonherm": lambda rng, p: direct_calls(rng, p, True),
     "direct_conj_pair": lambda rng, p: direct_calls(rng, p, True, conj_pair=True),
+    "direct_interleaved": lambda rng, p: direct_calls(rng, p, rng.random() < 0.5, interleaved=True),
     "green": green_calls,
     "kpm": kpm_calls,
 }
